@@ -729,7 +729,7 @@ fn lex_calc(song: &mut Song, src: &str, lineno: isize) -> Vec<Token> {
         }
         if lastpos == cur.index {
             let ch = cur.get_char();
-            println!("[skip]({}) {}", cur.line, ch);
+            if song.debug { println!("[skip]({}) {}", cur.line, ch); }
         }
     }
     result
@@ -773,7 +773,6 @@ fn read_for(cur: &mut SourceCursor, song: &mut Song) -> Token {
     let init_s = cur.get_token_ch(';').trim().to_string();
     let cond_s = cur.get_token_ch(';');
     let inc_s = cur.get_token_ch(')');
-    println!("---");
     cur.skip_space();
     if !cur.eq_char('{') {
         read_error_cmd(cur, song, "FOR");
